@@ -135,7 +135,7 @@ Proof.
   destruct (N.eqb (qsid f) k) eqn:E; [apply N.eqb_eq in E; congruence|]. apply IH. assumption.
 Qed.
 Definition wseqs (ws : list wire) : list nat :=
-  flat_map (fun w => match w with WBlock _ _ _ _ q _ => [q] | _ => [] end) ws.
+  flat_map (fun w => match w with WBlock _ _ _ _ q _ _ => [q] | _ => [] end) ws.
 Lemma wseqs_qwires e em : wseqs (qwires e em) = seq e (nblocks em).
 Proof.
   revert e. induction em as [|f t IH]; intros e; simpl; auto.
